@@ -117,8 +117,38 @@ class DifferentialCheck(core.CheckBase):
                 roundtrip.value_key('parse-differs', cls, expected_state, parsed_state) + pair.key_suffix,
                 '%s: parsing the specification encoding (%s..) does not recover the encoded values: differs at %s' % (
                     pair.label, pair.wire[:32].hex(), structural.diff_path(expected_state, parsed_state)), case))
+        found.extend(self.buffer_kinds(pair, parsed_state, case))
         found.extend(self.extra_oracles(pair, parsed, case))
         found.extend(self.edit_consistency(pair, case))
+        found.extend(self.collection_kinds(pair, case))
+        return found
+
+    def buffer_kinds(self, pair, parsed_state, case):
+        """The kind of buffer the bytes arrive in (bytes, bytearray, memoryview-free mutable buffer that is consumed) is
+        not part of the message: every entry point reads the same values out of the same octets."""
+        found = []
+        cls, name = pair.cls, pair.cls.__name__
+        attempts = (
+            ('parse_exact_size(bytearray)', lambda: cls.parse_exact_size(bytearray(pair.wire))),
+            ('parse_immutable(bytearray)', lambda: cls.parse_immutable(bytearray(pair.wire))[0]),
+            ('parse_mutable(bytearray)', lambda: cls.parse_mutable(bytearray(pair.wire))),
+        )
+        for how, attempt in attempts:
+            self.stats['buffer_kind_parses'] += 1
+            try:
+                other = attempt()
+            except Exception as e:  # pylint: disable=broad-except
+                found.append(self.violation(
+                    'buffer-kind-rejects|%s|%s%s' % (name, type(e).__name__, pair.key_suffix),
+                    '%s: the reference encoding is accepted as bytes by parse_exact_size, but %s raises %r' % (pair.label, how, e),
+                    case))
+                continue
+            other_state = structural.deep_state(other)
+            if other_state != parsed_state:
+                found.append(self.violation(
+                    'buffer-kind-differs|%s%s' % (name, pair.key_suffix),
+                    '%s: %s reads other values than parse_exact_size(bytes): differs at %s' % (
+                        pair.label, how, structural.diff_path(parsed_state, other_state)), case))
         return found
 
     @staticmethod
@@ -207,6 +237,50 @@ class DifferentialCheck(core.CheckBase):
                 try:
                     undo()
                 except Exception:  # pylint: disable=broad-except
+                    break
+        return found
+
+    def collection_kinds(self, pair, case):
+        """A flag field is a set of members however the caller spelled the collection: a list naming a member twice, a
+        tuple or a frozenset composes to the bytes the set composes to (when the constructor takes the collection at all)."""
+        import attr  # pylint: disable=import-outside-toplevel
+        import enum  # pylint: disable=import-outside-toplevel
+        found = []
+        if not attr.has(pair.cls) or not hasattr(pair.obj, 'compose'):
+            return found
+        try:
+            base = bytes(pair.obj.compose())
+        except Exception:  # pylint: disable=broad-except
+            return found
+        for field in attr.fields(pair.cls):
+            value = getattr(pair.obj, field.name, None)
+            if not (field.init and isinstance(value, (set, frozenset)) and value
+                    and all(isinstance(member, enum.Enum) for member in value)):
+                continue
+            members = sorted(value, key=lambda member: member.name)
+            for label, collection in (('list-with-repeats', members + members[:1] + members[-1:]),
+                                      ('tuple', tuple(reversed(members))), ('frozenset', frozenset(members))):
+                try:
+                    twin = copy.copy(pair.obj)
+                    twin = attr.evolve(twin, **{field.name.lstrip('_'): collection})
+                    if set(getattr(twin, field.name)) != set(value):
+                        continue
+                except Exception:  # pylint: disable=broad-except
+                    continue        # the constructor does not take this kind of collection
+                self.stats['collection_kinds_composed'] += 1
+                try:
+                    other = bytes(twin.compose())
+                except Exception as e:  # pylint: disable=broad-except
+                    found.append(self.violation(
+                        'collection-kind|%s|%s|raises' % (pair.cls.__name__, field.name),
+                        '%s: with .%s given as a %s compose() raises %r' % (pair.label, field.name, label, e), case))
+                    break
+                if other != base:
+                    offset = next((i for i, (a, b) in enumerate(zip(other, base)) if a != b), min(len(other), len(base)))
+                    found.append(self.violation(
+                        'collection-kind|%s|%s' % (pair.cls.__name__, field.name),
+                        '%s: with .%s given as a %s of the same members compose() gives %s at byte %d where the set gives %s' % (
+                            pair.label, field.name, label, other[offset:offset + 4].hex(), offset, base[offset:offset + 4].hex()), case))
                     break
         return found
 
